@@ -132,6 +132,7 @@ func (r *Registry) WriteOutputs(
 			if err != nil {
 				return err
 			}
+			verifhook.Gate("outwrite." + localOutputRef.Identifier)
 			outputsMutex.Lock()
 			targetOutputs = append(targetOutputs, output)
 			outputsMutex.Unlock()
